@@ -509,11 +509,18 @@ func checkC37(r *mon.Run) {
 		"RequestVerifier.VerifyCMSSignedRenewalRequest on a real sqlite trust DB at both bracket instants. Issuance: CAPolicy.CreateChain over " +
 		"signing time × validity relative to the CA certificate (exact ends, ±1 s, ±1 ns, wall clock) × key curves × subject; every issued " +
 		"chain is checked for requested key and subject, chain validity (independent profile checker + signature) and containment in the CA " +
-		"certificate's validity. class = first unmet condition × outcome; issuance start × validity × subject × outcome"
+		"certificate's validity. Histories: one long-lived RequestVerifier per history whose TRCFetcher is the sqlite trust DB behind a seam that, " +
+		"per lookup, answers or fails (context.DeadlineExceeded, wrapped deadline, context.Canceled, net.Error-like with Timeout() / Temporary(), plain error); " +
+		"3-5 conforming requests per phase while the ISD's store advances base only -> update replacing root 0 in its grace period -> grace period over " +
+		"(or directly base -> grace over), chains under the old / new / kept / a rogue root, valid or expired; the first lookup after the grace period is over " +
+		"is failed for an old-root chain, fault kind cycling. class = first unmet condition × outcome; issuance start × validity × subject × outcome; " +
+		"fault kind × phase × chain root × outcome"
 	r.Assumptions = []string{
 		"whether the client chain verifies is decided at processing time (the bracket instants around the call); the signing-time attribute is requester-controlled and never makes a request acceptable",
 		"the statement is an 'only if': rejecting a conforming request is not judged, but the run is reported broken unless every conforming request was accepted and every feasible issuance granted",
 		"a chain verifying only against a predecessor TRC that has itself expired inside the grace period is observed, not judged",
+		"histories: the TRCs that count are those that are the latest / its predecessor in the store at processing time (world model), whatever earlier lookups returned; " +
+			"a request whose TRC lookup failed may be refused (unjudged) but must not be accepted with a chain those TRCs do not admit",
 	}
 	pool := gen.NewPool(64, 6, 6)
 	st := &c37Stats{timeMatrix: map[string]int{}}
@@ -531,6 +538,17 @@ func checkC37(r *mon.Run) {
 	for i := 0; i < ni; i++ {
 		runC37Issue(r, pool, rngI, i, st)
 	}
+	// histories on one long-lived verifier with faults at the TRC-fetcher seam (c37hist.go)
+	hs := &c37HistStats{}
+	rngH := r.Rand("c37-history")
+	nh := r.Pick(72, 1200)
+	for h := 0; h < nh; h++ {
+		runC37History(r, pool, rngH, h, hs)
+	}
+	st.validRejected += hs.conformingRefusedWithoutFault
+	st.validAccepted += hs.accepted
+	r.Extra("history_requests", map[string]int{"histories": nh, "requests": hs.requests, "with_failed_trc_lookup": hs.faultyRequests,
+		"accepted": hs.accepted, "refused": hs.refused, "conforming_refused_without_fault": hs.conformingRefusedWithoutFault})
 	r.Extra("chain_window_x_signing_time_cases", st.timeMatrix)
 	r.Extra("valid_requests_accepted", st.validAccepted)
 	r.Extra("valid_requests_rejected", st.validRejected)
@@ -547,6 +565,17 @@ func checkC37(r *mon.Run) {
 		"request/time/chain-expired/signing-time-future-1h/rejected", "request/time/chain-expired/signing-time-long-ago/rejected",
 		"request/time/chain-not-yet-valid/signing-time-now/rejected", "request/time/chain-not-yet-valid/signing-time-forward-dated/rejected",
 		"request/time/chain-not-yet-valid-8s/signing-time-forward-dated/rejected", "request/time/chain-not-yet-valid/signing-time-absent/rejected")
+	// the history part must have exercised: undisturbed requests in every phase with both outcomes, and an
+	// old-root chain after the grace period whose latest-TRC lookup failed in each of the ways
+	r.RequireClasses("history/no-fault/base-only/old-root-chain/accepted", "history/no-fault/base-only/new-root-chain/refused",
+		"history/no-fault/in-grace/old-root-chain/accepted", "history/no-fault/in-grace/new-root-chain/accepted",
+		"history/no-fault/grace-over/new-root-chain/accepted", "history/no-fault/grace-over/old-root-chain/refused",
+		"fetcher-fault/deadline-exceeded/grace-over/old-root-chain/refused", "fetcher-fault/net-timeout/grace-over/old-root-chain/refused",
+		"fetcher-fault/net-temporary/grace-over/old-root-chain/refused", "fetcher-fault/wrapped-deadline/grace-over/old-root-chain/refused",
+		"fetcher-fault/canceled/grace-over/old-root-chain/refused", "fetcher-fault/plain-error/grace-over/old-root-chain/refused")
 	r.Require(int64((n+ni)/2), 50, "request_accepted", "request_rejected", "issue_granted", "issue_denied",
-		"request_outside_validity_with_chosen_signing_time")
+		"request_outside_validity_with_chosen_signing_time",
+		"history_request_accepted", "history_request_refused", "history_trc_update_inserted", "fetcher_fault_injected",
+		"fetcher_fault_after_trc_update", "fetcher_fault_deadline-exceeded", "fetcher_fault_net-timeout", "fetcher_fault_net-temporary",
+		"fetcher_fault_canceled", "fetcher_fault_plain-error")
 }
